@@ -173,10 +173,19 @@ def solve_one(job):
     paths = []
     try:
         if expect_sat:
+            if has_q:
+                # covers / canaries: a validated model (counterexample-guided instantiation) answers quickly
+                t0 = time.time()
+                try:
+                    rc, _m = cegar(list(z3.parse_smt2_string(smt2)), budget_s=6, timeout_ms=4000)
+                except z3.Z3Exception:
+                    rc = "unknown"
+                if rc in ("sat", "unsat"):
+                    return idx, rc, time.time() - t0, "z3-5.1.0(counterexample-guided instantiation)", ""
             text = (_inst_text(smt2) if has_q else None) or smt2
             path = _write_tmp(text)
             paths.append(path)
-            r, secs, backend, reason = _race([("z3-5.1.0", [Z3_BIN, "-T:10", "-memory:%d" % MEM_MB, path])], 10)
+            r, secs, backend, reason = _race([("z3-5.1.0", [Z3_BIN, "-T:6", "-memory:%d" % MEM_MB, path])], 6)
             return idx, r, secs, backend, reason
         path = _write_tmp(smt2)
         paths.append(path)
